@@ -37,7 +37,8 @@ func vc_binlogEvent_IsValid_ensures_iff(ev binlogEvent, res bool) bool {
 // ---- header accessors: total on valid buffers, equal to the documented little-endian fields ----
 
 // (weakest preconditions: each accessor needs exactly the bytes of its field; a valid buffer has all 19)
-func vc_binlogEvent_Type_requires(ev binlogEvent) bool         { return len(ev) >= 5 }
+func vc_binlogEvent_Type_requires(ev binlogEvent) bool { return len(ev) >= 5 }
+
 // (the multi-byte fields are read through a re-slice, which Go bounds by the capacity: an event whose checksum
 // was stripped keeps its capacity)
 func vc_binlogEvent_Flags_requires(ev binlogEvent) bool        { return cap(ev) >= 19 }
